@@ -446,7 +446,8 @@ func (x *Decimal) Float(z *big.Float) *big.Float {
 
 	switch x.form {
 	case zero:
-		z.SetPrec(p)
+		// SetPrec(0) above leaves an infinity in place
+		z.SetInt64(0).SetPrec(p)
 		if x.neg != z.Signbit() {
 			z.Neg(z)
 		}
